@@ -420,7 +420,43 @@ func c18Profiles(tier string) []Profile {
 	if tier == "thorough" {
 		nS, nR, bound = 3, 4, 3
 	}
+	deep := &SeqProfile{Name: "deep", Keys: [][]byte{bs("k0000"), bs("zz")}, Depth: 0, StepLimit: 100000000,
+		Letters: func(w *harness.World) []Letter { return nil },
+		Init: func(w *harness.World) {
+			n := []int{150, 400}[harness.Choose(2, harness.ClassOp)]
+			rising := harness.Choose(2, harness.ClassOp) == 1
+			reopened := harness.Choose(2, harness.ClassOp) == 1
+			api := harness.Choose(4, harness.ClassOp)
+			w.Hist = append(w.Hist, fmt.Sprintf("n=%d priorities rising with the keys=%v reopened=%v api=%d", n, rising, reopened, api))
+			w.SetCollection("x", "nil")
+			for i := 0; i < n; i++ {
+				p := int32(i + 1)
+				if !rising {
+					p = int32(n - i)
+				}
+				w.SetItem("x", bs(fmt.Sprintf("k%04d", i)), p, bs("v"))
+			}
+			if reopened {
+				w.Flush()
+				w.Reopen(true)
+			}
+			switch api {
+			case 0:
+				w.Visit("x", harness.APIIterAscend, []byte{}, true, -1)
+			case 1:
+				w.Visit("x", harness.APIIterDescend, []byte{0xff}, false, -1)
+			case 2:
+				w.Visit("x", harness.APIIterAscend, bs("k0100"), false, 5)
+			case 3:
+				w.Visit("x", harness.APIDescend, []byte{0xff}, true, -1)
+			}
+			harness.Quiesce()
+			if harness.Instrumented && harness.LiveLibThreads() != 0 {
+				w.Fail("iterator", "producer-leak", "producer goroutine alive at the end")
+			}
+		}}
 	return []Profile{
+		deep.Profile("collections of 150 and 400 items whose priorities rise or fall with the keys (a treap as deep as it is large) x {cached, re-opened} x {ascending iterator, descending key-only iterator, iterator closed after 5 items, descending visit}: iteration terminates cleanly for every collection size and shape, delivering exactly the range"),
 		{Name: "faulted-iteration", Exec: c18FaultedIter(), Budget: map[int]int{explore.ClassFault: 1}, ShardLevel: 3,
 			Rule: "a 4-item re-opened collection visited completely (ascending/descending, visit/iterator) with one failing file call at every index: the failure is reported, the producer goroutine exits, the pinned version is released, a following mutation and the full read battery behave"},
 		{Name: "scripts-mutate", Exec: c18ScriptExec(nS, true, true), Budget: map[int]int{explore.ClassSched: 1}, ShardLevel: 3, FreeRun: true,
